@@ -125,15 +125,15 @@ func c05Tables(c *Ctx, r *Report) {
 		// registerSize under Type == tv
 		an := &Analysis{ctx: c, u: newUniverse(), top: regSize}
 		fr := an.newFrame(regSize, nil, nil)
-		typeSym := affSym(an.u.sym("*f.Type", 0, 255))
-		lenSym := affSym(an.u.sym("*f.Length", 0, 255))
+		typeSym := affSym(an.u.sym("*"+regSize.Params[0].Name()+".Type", 0, 255))
+		lenSym := affSym(an.u.sym("*"+regSize.Params[0].Name()+".Length", 0, 255))
 		fr.run(DNF{Conj{atomEQ(typeSym, affConst(tv))}})
 		// accessor chosen by ExtractFrom
 		an2 := &Analysis{ctx: c, u: newUniverse(), top: extract, logCalls: true}
 		// accessors are analysed by C04; only the call matters here
 		an2.noInline = func(fn *ssa.Function) bool { return fn.Signature.Recv() != nil }
 		fr2 := an2.newFrame(extract, nil, nil)
-		t2 := affSym(an2.u.sym("*f.Type", 0, 255))
+		t2 := affSym(an2.u.sym("*"+extract.Params[0].Name()+".Type", 0, 255))
 		fr2.run(DNF{Conj{atomEQ(t2, affConst(tv))}})
 		var acc *CallRec
 		n := 0
@@ -208,17 +208,19 @@ func c05Tables(c *Ctx, r *Report) {
 			arg := acc.args[i+1] // args[0] is the receiver
 			p := params.At(i)
 			want := ""
+			rcv := "*" + extract.Params[0].Name()
+			resT := types.TypeString(sig.Results().At(0).Type(), nil)
 			switch {
 			case i == 0:
-				want = "*f.Address"
+				want = rcv + ".Address"
 			case types.TypeString(p.Type(), nil) == "bool":
-				want = "*f.FromHighByte"
+				want = rcv + ".FromHighByte"
 			case strings.HasSuffix(types.TypeString(p.Type(), nil), "ByteOrder"):
-				want = "*f.ByteOrder"
-			case p.Name() == "bit":
-				want = "*f.Bit"
-			case p.Name() == "length":
-				want = "*f.Length"
+				want = rcv + ".ByteOrder"
+			case resT == "bool": // the bit accessor's second parameter is the bit number
+				want = rcv + ".Bit"
+			case resT == "string": // the string accessor's second parameter is the length
+				want = rcv + ".Length"
 			default:
 				want = "?"
 			}
@@ -478,7 +480,24 @@ func c05Loops(c *Ctx, r *Report) {
 				}
 			}
 			// Field: load of the loop element copy
-			fOK := stored["Field"] != nil && strings.Contains(accessPath(stored["Field"]), "(f)")
+			// (the local the range element is copied into, whatever it is called)
+			var elem *ssa.Alloc
+			if ld, ok := stored["Field"].(*ssa.UnOp); ok && ld.Op == token.MUL {
+				if al, ok := ld.X.(*ssa.Alloc); ok {
+					if refs := al.Referrers(); refs != nil {
+						for _, rf := range *refs {
+							if st, ok := rf.(*ssa.Store); ok && st.Addr == al {
+								if l2, ok := st.Val.(*ssa.UnOp); ok && l2.Op == token.MUL {
+									if _, ok := l2.X.(*ssa.IndexAddr); ok {
+										elem = al
+									}
+								}
+							}
+						}
+					}
+				}
+			}
+			fOK := elem != nil
 			// Value and Error: extracts #0/#1 of the same call, possibly boxed
 			var vcall, ecall ssa.Value
 			if v := stored["Value"]; v != nil {
@@ -492,6 +511,21 @@ func c05Loops(c *Ctx, r *Report) {
 			if v := stored["Error"]; v != nil {
 				if e, ok := v.(*ssa.Extract); ok && e.Index == 1 {
 					ecall = e.Tuple
+				}
+			}
+			// the value was obtained for this very element: the element feeds the call's operands
+			if fOK && vcall != nil {
+				if call, ok := vcall.(*ssa.Call); ok {
+					uses := false
+					for _, arg := range call.Common().Args {
+						if valueDerivesFrom(arg, elem, 0) {
+							uses = true
+						}
+					}
+					if call.Common().IsInvoke() && valueDerivesFrom(call.Common().Value, elem, 0) {
+						uses = true
+					}
+					fOK = uses
 				}
 			}
 			okVal = fOK && vcall != nil && vcall == ecall
@@ -1077,4 +1111,29 @@ func c05FullRange(c *Ctx, r *Report, rule string) {
 			}
 		}
 	}
+}
+
+// valueDerivesFrom: v is the alloc itself, or a field address / load / conversion of it.
+func valueDerivesFrom(v ssa.Value, al *ssa.Alloc, depth int) bool {
+	if v == al {
+		return true
+	}
+	if depth > 6 {
+		return false
+	}
+	switch x := v.(type) {
+	case *ssa.UnOp:
+		return valueDerivesFrom(x.X, al, depth+1)
+	case *ssa.FieldAddr:
+		return valueDerivesFrom(x.X, al, depth+1)
+	case *ssa.Field:
+		return valueDerivesFrom(x.X, al, depth+1)
+	case *ssa.Convert:
+		return valueDerivesFrom(x.X, al, depth+1)
+	case *ssa.ChangeType:
+		return valueDerivesFrom(x.X, al, depth+1)
+	case *ssa.MakeInterface:
+		return valueDerivesFrom(x.X, al, depth+1)
+	}
+	return false
 }
